@@ -7,10 +7,13 @@ ROOT = os.path.dirname(os.path.dirname(os.path.abspath(__file__)))
 
 
 def write(prop, tier, seed, level, coverage, wall_s, violations, assumptions):
-    os.makedirs(os.path.join(ROOT, "evidence"), exist_ok=True)
+    # VERIF_EVIDENCE_DIR: development aid for runs against a deliberately broken tree (seeded/try.sh), so that such
+    # a run does not replace the evidence of the real tree; registered commands never set it
+    edir = os.environ.get("VERIF_EVIDENCE_DIR") or os.path.join(ROOT, "evidence")
+    os.makedirs(edir, exist_ok=True)
     ev = dict(property_id=prop, tier=tier, seed=int(seed), level=level, coverage=coverage,
               assumptions=list(assumptions), wall_s=round(float(wall_s), 3), violations=int(violations))
-    path = os.path.join(ROOT, "evidence", f"{prop}.json")
+    path = os.path.join(edir, f"{prop}.json")
     tmp = path + ".tmp"
     with open(tmp, "w") as f:
         json.dump(ev, f, indent=1, default=repr)
